@@ -73,7 +73,14 @@ pub enum Op {
     Parse(u8),
     ParseFragment(u8),
     SetConsolidation(bool),
+    // C10 alphabet: nodes in new namespaces, pre-declared n0/n1, clone-and-attach
+    AppendElementNs(H, u8),
+    SetAttrNs(H, u8),
+    DeclareN(H, u8, u8),
+    CloneAppend(H, H),
 }
+
+pub const NS4: [&str; 4] = [X, Y, "urn:z", "urn:w"];
 
 pub const ATTR_NAMES: [(&str, &str); 3] = [("", "k"), (X, "l"), ("", "m")];
 pub const PREFIXES: [&str; 2] = ["", "p"];
@@ -134,12 +141,17 @@ impl Op {
             Parse(..) => "parse",
             ParseFragment(..) => "parse_fragment",
             SetConsolidation(..) => "set_text_consolidation",
+            AppendElementNs(..) => "append(new element in namespace)",
+            SetAttrNs(..) => "set_attribute(namespaced)",
+            DeclareN(..) => "set_namespace(nN)",
+            CloneAppend(..) => "clone_node+append",
         }
     }
     pub fn args(&self) -> Vec<H> {
         use Op::*;
         match self {
-            Append(a, b) | Prepend(a, b) | InsertAfter(a, b) | InsertBefore(a, b) | Replace(a, b) | AnyAppend(a, b) | AppendAttrNode(a, b) | AppendNsNode(a, b) => vec![*a, *b],
+            Append(a, b) | Prepend(a, b) | InsertAfter(a, b) | InsertBefore(a, b) | Replace(a, b) | AnyAppend(a, b) | AppendAttrNode(a, b) | AppendNsNode(a, b) | CloneAppend(a, b) => vec![*a, *b],
+            AppendElementNs(a, _) | SetAttrNs(a, _) | DeclareN(a, ..) => vec![*a],
             Detach(a) | Remove(a) | Unwrap(a) | Wrap(a) | CloneNode(a) | CloneWithPrefixes(a) | AppendText(a, _) | AppendElement(a) | AppendComment(a) | SetAttr(a, ..) | RemoveAttr(a, _) | SetNs(a, ..)
             | RemoveNs(a, _) | AttrsClear(a) | NssClear(a) | SetElementName(a) | SetText(a, _) | SetComment(a, _) | SetPiData(a, _) | TextContentMut(a, _) | SetAttrValue(a, _) | RemoveWs(a) | CreateMissingPrefixes(a) | Dedup(a) => {
                 vec![*a]
@@ -334,6 +346,37 @@ impl World {
                 SetConsolidation(b) => {
                     self.xot.set_text_consolidation(*b);
                     Ok(None)
+                }
+                AppendElementNs(_, n) => {
+                    let ns = self.xot.add_namespace(NS4[*n as usize]);
+                    let name = self.xot.add_name_ns("e", ns);
+                    let el = self.xot.new_element(name);
+                    self.xot.append(nodes[0], el).map(|_| Some(el)).map_err(|e| format!("{:?}", e))
+                }
+                SetAttrNs(_, n) => {
+                    if !self.xot.is_element(nodes[0]) {
+                        return Err("NotElement".into());
+                    }
+                    let ns = self.xot.add_namespace(NS4[*n as usize]);
+                    let name = self.xot.add_name_ns("t", ns);
+                    self.xot.set_attribute(nodes[0], name, "v");
+                    Ok(None)
+                }
+                DeclareN(_, p, n) => {
+                    if !self.xot.is_element(nodes[0]) {
+                        return Err("NotElement".into());
+                    }
+                    let p = self.xot.add_prefix(if *p == 0 { "n0" } else { "n1" });
+                    let ns = self.xot.add_namespace(NS4[*n as usize]);
+                    self.xot.set_namespace(nodes[0], p, ns);
+                    Ok(None)
+                }
+                CloneAppend(..) => {
+                    if !self.xot.is_element(nodes[1]) && !self.xot.is_document(nodes[1]) {
+                        return Err("NotContainer".into());
+                    }
+                    let c = self.xot.clone_node(nodes[0]);
+                    self.xot.append(nodes[1], c).map(|_| Some(c)).map_err(|e| format!("{:?}", e))
                 }
             }
         });
